@@ -674,6 +674,10 @@ KERNELS = [
     dict(name='runGrowth', file='epsie/samplers/base.py', cls='BaseSampler', func='run',
          params=[('niterations', 'Int'), ('scratchlen', 'Int'), ('len', 'Int')], ret='Int',
          bind={'c.scratchlen': 'scratchlen', 'len(c)': 'len'}, special='rungrowth'),
+    # --- Chain.state / Chain.set_state (C05): which keys are saved from what, which attribute is restored
+    #     from which key, and that the memory is cleared before the counters are restored
+    dict(name='chainStateFlow', file='epsie/chain/chain.py', cls='Chain', func='state', params=[], ret='',
+         special='stateflow'),
     # --- epsie/chain/ptchain.py: sweep schedule, the sweep loop, row indices, the row views (C03, C09)
     dict(name='sweepDue', file='epsie/chain/ptchain.py', cls='ParallelTemperedChain', func='step',
          params=[('ntemps', 'Int'), ('iteration', 'Int'), ('swap_interval', 'Int')], ret='Bool',
@@ -783,6 +787,60 @@ def special(spec):
                 or src(outs2[0].slice.upper) != src(outs[0].slice.upper):
             raise Unsupported('temperature_acceptance view differs from temperature_swaps')
         return '%s\ndef %s %s : %s :=\n  %s\n' % (head, spec['name'], params, spec['ret'], up)
+    if kind == 'stateflow':
+        # state: `state = {}` then `state['k'] = <expr>` (possibly through a local set in an if/else), return state
+        keys = []
+        local_defs = {}
+        for st in fn.body:
+            if isinstance(st, ast.Expr) and isinstance(st.value, ast.Constant):
+                continue
+            if isinstance(st, ast.Assign) and src(st.targets[0]) == 'state' and src(st.value) == '{}':
+                continue
+            if isinstance(st, ast.Assign) and isinstance(st.targets[0], ast.Subscript) and src(st.targets[0].value) == 'state' \
+                    and isinstance(st.targets[0].slice, ast.Constant):
+                v = src(st.value)
+                keys.append((st.targets[0].slice.value, local_defs.get(v, v)))
+                continue
+            if isinstance(st, ast.If) and len(st.body) == 1 and len(st.orelse) == 1 and \
+                    all(isinstance(b, ast.Assign) and isinstance(b.targets[0], ast.Name) for b in (st.body[0], st.orelse[0])) \
+                    and src(st.body[0].targets[0]) == src(st.orelse[0].targets[0]):
+                local_defs[src(st.body[0].targets[0])] = '%s if %s else %s' % (src(st.body[0].value), src(st.test), src(st.orelse[0].value))
+                continue
+            if isinstance(st, ast.Return) and src(st.value) == 'state':
+                continue
+            raise Unsupported('statement of Chain.state: ' + src(st).split('\n')[0])
+        fn2 = find_func(tree, spec.get('cls'), 'set_state')
+        flows = []
+        cleared_at = None
+        for st in fn2.body:
+            if isinstance(st, ast.Expr) and isinstance(st.value, ast.Constant):
+                continue
+            cond = ''
+            inner = [st]
+            if isinstance(st, ast.If) and not st.orelse:
+                cond = src(st.test)
+                inner = st.body
+            for b in inner:
+                reads = [n.slice.value for n in ast.walk(b) if isinstance(n, ast.Subscript) and src(n.value) == 'state'
+                         and isinstance(n.slice, ast.Constant)]
+                if src(b) == 'self.clear()':
+                    cleared_at = len(flows)
+                    flows.append(('self.clear()', '', ''))
+                elif isinstance(b, ast.Assign) and len(reads) == 1 and src(b.value) in (
+                        "state['%s']" % reads[0], "state['%s'].copy()" % reads[0]):
+                    flows.append((src(b.targets[0]), reads[0], cond))
+                elif isinstance(b, ast.Expr) and isinstance(b.value, ast.Call) and len(reads) == 1 and len(b.value.args) == 1 \
+                        and src(b.value.args[0]) == "state['%s']" % reads[0]:
+                    flows.append((src(b.value.func), reads[0], cond))
+                elif not reads:
+                    flows.append((src(b).split('\n')[0], '', cond))
+                else:
+                    raise Unsupported('statement of Chain.set_state: ' + src(b).split('\n')[0])
+        lst = lambda prs: '[' + ', '.join('(' + ', '.join(json_str(x) for x in pr) + ')' for pr in prs) + ']'   # noqa: E731
+        digest2 = hashlib.sha256(ast.dump(fn2).encode()).hexdigest()[:16]
+        return ('%s\ndef chainStateKeys : List (String × String) :=\n  %s\n\n'
+                '/-- from `Chain.set_state` (AST digest %s): (what is assigned or called, the key of the state it reads, the condition it is under), in program order. -/\n'
+                'def chainSetStateFlow : List (String × String × String) :=\n  %s\n' % (head, lst(keys), digest2, lst(flows)))
     if kind == 'rungrowth':
         loops = [n for n in fn.body if isinstance(n, ast.For) and src(n.iter) == 'self.chains' and src(n.target) == 'c']
         if len(loops) != 1 or len(loops[0].body) != 1 or not isinstance(loops[0].body[0], ast.AugAssign) \
